@@ -78,6 +78,64 @@ func init() {
 				names[i] = fmt.Sprintf("%q", strings.SplitN(v, " : ", 2)[0])
 			}
 			fmt.Fprintf(b, "def pkgVarNames_%s : List String := [%s]\n\n", p.name, strings.Join(names, ", "))
+			// fields of the struct types of which a package-level variable holds an instance (process-wide singletons
+			// such as the encoders): a field added there is process-wide state just as well
+			structs := map[string][]string{}
+			single := map[string]bool{}
+			for _, f := range goFiles(p.dir) {
+				af := parse(f)
+				if af == nil {
+					continue
+				}
+				for _, d := range af.Decls {
+					gd, ok := d.(*ast.GenDecl)
+					if !ok {
+						continue
+					}
+					for _, sp := range gd.Specs {
+						switch x := sp.(type) {
+						case *ast.TypeSpec:
+							if st, ok := x.Type.(*ast.StructType); ok {
+								var fs []string
+								for _, fl := range st.Fields.List {
+									if len(fl.Names) == 0 {
+										fs = append(fs, x.Name.Name+"."+typeName(fl.Type))
+									}
+									for _, n := range fl.Names {
+										fs = append(fs, x.Name.Name+"."+n.Name)
+									}
+								}
+								structs[x.Name.Name] = fs
+							}
+						case *ast.ValueSpec:
+							if gd.Tok != token.VAR {
+								continue
+							}
+							for _, v := range x.Values {
+								e := v
+								if u, ok := e.(*ast.UnaryExpr); ok {
+									e = u.X
+								}
+								if cl, ok := e.(*ast.CompositeLit); ok {
+									if t := typeName(cl.Type); t != "" {
+										single[t] = true
+									}
+								}
+							}
+						}
+					}
+				}
+			}
+			var sf []string
+			for t := range single {
+				sf = append(sf, structs[t]...)
+			}
+			sort.Strings(sf)
+			q := make([]string, len(sf))
+			for i, x := range sf {
+				q[i] = fmt.Sprintf("%q", x)
+			}
+			fmt.Fprintf(b, "/-- fields of the struct types instantiated by package-level variables of %s -/\ndef singletonFields_%s : List String := [%s]\n\n", p.dir, p.name, strings.Join(q, ", "))
 		}
 	})
 }
